@@ -215,6 +215,45 @@ def fs_failure_cases(rng, n):
     return cases
 
 
+def fs_transfer_cases(rng, n, big):
+    """File::copy under every kind of outcome of the kernel's transfer calls (short, zero, failing)"""
+    cases = []
+    sizes = [0, 1, 2, 5, 26, 78, 129, 300]
+    for i in range(n):
+        c = ['@fs'] + sentinel()
+        size = rng.choice(sizes) if not (big and i % 9 == 0) else rng.choice([65536, 65537, 70001, 131073])
+        if size <= 78 and rng.random() < 0.5:
+            c.append('mkf %s %s' % (H('f'), H(bytes(rng.randrange(256) for _ in range(size)))))
+        else:
+            c.append('mkfbig %s %d %d' % (H('f'), rng.randrange(100), size))
+        kind = rng.choice(['new', 'new', 'existing', 'existing', 'dangling', 'link', 'self', 'outside', 'nodir'])
+        dst = 'n'
+        if kind == 'existing':
+            c.append('mkf %s %s' % (H('n'), H(rng.choice(CONTENTS))))
+        elif kind == 'dangling':
+            c.append('mkl %s %s' % (H(rng.choice(['t', '../out/t'])), H('n')))
+        elif kind == 'link':
+            c.append('mkf %s %s' % (H('t'), H(b'old')))
+            c.append('mkl %s %s' % (H('t'), H('n')))
+        elif kind == 'self':
+            dst = rng.choice(['f', './f'])
+        elif kind == 'outside':
+            dst = '../out/s/n'
+        elif kind == 'nodir':
+            dst = 'nodir/n'
+        outs = []
+        for _ in range(rng.randrange(0, 5)):
+            outs.append(rng.choice([-1, 0, 1, 1, 2, 3, 7, 64, 128, 4096, 65536, max(1, size // 2), size, size + 1]))
+        if outs:
+            c.append('inject ' + ' '.join(str(x) for x in outs))
+        c.append('copy %s %s %d' % (H('f'), H(dst), rng.randrange(2)))
+        c += ['open 0 %s 1' % H(dst), 'readall 0', 'close 0']
+        if rng.random() < 0.3:                       # and once more without interference
+            c.append('copy %s %s 0' % (H('f'), H(dst)))
+        cases.append(c)
+    return cases
+
+
 FIXED_TREES = [
     [],
     ['mkd ' + H('a'), 'mkf %s %s' % (H('a/f'), H(b'hello')), 'mkf %s %s' % (H('b'), H(b'bb')), 'mkl %s %s' % (H('../out'), H('l'))],
@@ -304,7 +343,7 @@ def fs_text_judge(ops, obs):
     one the property text allows"""
     tree = {'in': ('d',), 'out': ('d',)}
     H = {}
-    relaxed_copy = False
+    relaxed_copy = None
     for k, line in enumerate(ops):
         if k >= len(obs):
             return None
@@ -348,7 +387,7 @@ def fs_text_judge(ops, obs):
                     else:
                         exp[path] = ('l', unhex(t[1]))
             elif op == 'inject':
-                relaxed_copy = True
+                relaxed_copy = [int(x) for x in t[1:]]
             elif op == 'open':
                 h, fl = int(t[1]) & 7, int(t[3])
                 wr = bool(fl & 2)
@@ -461,13 +500,25 @@ def fs_text_judge(ops, obs):
                     if fie and E != '-':
                         raise Bad('copy-fail-if-exists', 'copy with failIfExists says true although the destination existed')
                     exp[D] = ('f', tree[S][1])
-                elif relaxed_copy and E in tree and tree[E][0] == 'f' and E != S:
-                    # a transfer that was made to fail midway over an existing destination: its bytes are lost
-                    # (level_note), but no new name may appear and nothing else may change
-                    got = [x for x in post_toks if x.startswith(E + ':f:')]
-                    if got:
-                        exp[E] = ('raw', got[0])
-                relaxed_copy = False
+                elif relaxed_copy is not None and S in tree and tree[S][0] == 'f' and (
+                        (E in tree and tree[E][0] == 'f' and E != S) or
+                        (E == '-' and pr.get('l', '-') != '-' and D != '-' and D not in tree)):
+                    # a transfer that was made to fail midway over an existing destination - or over a name
+                    # that did not exist, reached through a symbolic link: what has arrived stays (level_note);
+                    # it is a prefix of the source's bytes, no other name may appear, nothing else may change
+                    W = E if E in tree else D
+                    src = tree[S][1]
+                    sums, acc = [0], 0
+                    for n in relaxed_copy:
+                        if n <= 0:
+                            break
+                        acc = min(len(src), acc + n)
+                        sums.append(acc)
+                    fit = [n for n in sums if tok_of(W, ('f', src[:n])) in post_toks]
+                    if not fit:
+                        raise Bad('copy-partial-bytes', 'after a failed transfer the destination holds neither nothing nor a prefix of the source')
+                    exp[W] = ('f', src[:fit[-1]])
+                relaxed_copy = None
             elif op == 'exists':
                 S = pr.get('s', '-')
                 if not S.startswith('!') and not S.startswith('?'):
@@ -499,7 +550,7 @@ def fs_text_judge(ops, obs):
             else:
                 return None
             # the tree afterwards must be exactly the expected one
-            exp_toks = set((v[1] if v[0] == 'raw' else tok_of(q, v)) for q, v in exp.items())
+            exp_toks = set(tok_of(q, v) for q, v in exp.items())
             if exp_toks != post_toks:
                 new = sorted(post_toks - exp_toks)
                 gone = sorted(exp_toks - post_toks)
@@ -519,15 +570,7 @@ def fs_text_judge(ops, obs):
         except Bad as b:
             return (k, b.args[0], b.args[1])
         # carry the expected (= observed) tree forward
-        tree = {}
-        for q, v in exp.items():
-            if v[0] == 'raw':
-                continue
-            tree[q] = v
-        for x in post_toks:                                # a destination left with unknown bytes (relaxed copy)
-            q, _, v = x.partition(':')
-            if q not in tree:
-                tree[q] = ('f', b'') if v.startswith('f:') else ('d',)
+        tree = exp
         for h in [h for h, hh in H.items() if hh['path'] not in tree]:
             H.pop(h)
     return None
@@ -694,6 +737,8 @@ class C19(Check):
                           note='Directory::create / unlink on random trees with symbolic links to the outside sentinel'))
         out.append(Stream('fs-failures', fs_failure_cases(rng, 2000 if thorough else 300),
                           note='rename / copy / open aimed at their failure branches'))
+        out.append(Stream('fs-transfer', fs_transfer_cases(rng, 1500 if thorough else 250, True),
+                          note='File::copy with short, empty and failing sendfile calls (outcome oracle), sources up to 128 KiB'))
         out.append(Stream('fs-exhaustive', fs_exhaustive_cases(thorough), exhaustive=True,
                           note='create / unlink on every short path, rename / copy on every pair of short paths, over %d fixed trees' % len(FIXED_TREES)))
         return out
